@@ -26,7 +26,7 @@ RULE = ('a case = (program with on-error on a random subset of elements, depth <
         'failure set of 1..2 raising expression occurrences chosen among ALL occurrences incl. fallback expressions); '
         'non-trivial iff >=1 failure is raised inside an on-error element (per the model); distinct by (handler nesting '
         'shape, failure position classes, statement kinds on the handling element). Not generated (statement silent): '
-        'tal:omit-tag on the on-error element, default as the on-error value, tal:attributes targeting a static attribute '
+        'an unconditional tal:omit-tag on the on-error element (a conditional one is generated; both readings of its effect on the fallback tags are accepted), default as the on-error value, tal:attributes targeting a static attribute '
         'of the on-error element, reading the error variable after the element.')
 ASSUMPTIONS = ['reference model vlib/tmodel.py; on-error restores the variable scope of the point where the element began']
 
@@ -35,7 +35,7 @@ class Gen(c01.Gen):
     def element(self, depth, in_switch):
         node = super().element(depth, in_switch)
         rng = self.rng
-        if rng.random() < .5 and 'omit' not in node.stmts:
+        if rng.random() < .5 and node.stmts.get('omit', 0) is not None:      # not with an unconditional omit-tag
             # keep tal:attributes away from the static names of an on-error element
             if 'attributes' in node.stmts:
                 statics = {k.lower() for k, v in node.statics}
@@ -115,7 +115,14 @@ def run(ctx):
             ctx.case(key=(handler_shape(root), fail_sites, tuple(want['handled']) != ()), nontrivial=bool(want['handled']),
                      sample={'source': src, 'table': {str(k): v for k, v in table.items()}, 'rendered': got['out'],
                              'handler_calls': got['handled']} if i < 2 and b == 0 else None)
-            if not tmodel.same(got, w, with_handled=True, groups=groups):
+            ok = tmodel.same(got, w, with_handled=True, groups=groups)
+            if not ok:
+                # reading B for tal:omit-tag on the on-error element (the statement does not say which)
+                wb = tmodel.run_model(root, table, quirks={'onerror-omit-reevaluated'})
+                if wb['out'] is not None:
+                    wb['out'] = '<root>' + wb['out'] + '</root>'
+                ok = tmodel.same(got, wb, with_handled=True, groups=groups)
+            if not ok:
                 key = classify(root, table, got, w, groups)
                 ctx.violation(key, 'template %r\n  table %r\n  real  %r\n  model %r' % (src, table, got, w),
                               {'kind': 'model', 'src': src, 'table': {str(k): v for k, v in table.items()}, 'model': w})
@@ -124,11 +131,12 @@ def run(ctx):
 def classify(root, table, got, want, groups):
     # known mechanism: local definitions of an abandoned element are not restored (restore code is
     # straight-line, not finally), so they stay visible after the on-error element
-    alt = tmodel.run_model(root, table, quirks={'onerror-keeps-locals'})
-    if alt['out'] is not None:
-        alt['out'] = '<root>' + alt['out'] + '</root>'
-    if tmodel.same(got, alt, with_handled=True, groups=groups):
-        return 'locals-of-abandoned-element-stay-bound'
+    for q in ({'onerror-keeps-locals'}, {'onerror-keeps-locals', 'onerror-omit-reevaluated'}):
+        alt = tmodel.run_model(root, table, quirks=q)
+        if alt['out'] is not None:
+            alt['out'] = '<root>' + alt['out'] + '</root>'
+        if tmodel.same(got, alt, with_handled=True, groups=groups):
+            return 'locals-of-abandoned-element-stay-bound'
     if got['exc'] != want['exc']:
         return 'exception-differs:%s' % (got['exc'] or 'none').split(':')[0].replace(' ', '-')
     if got['out'] != want['out']:
